@@ -27,6 +27,8 @@ func NewStateListener(next http.Handler, stateListener URLForwardingStateListene
 
 func (s *StateListener) ServeHTTP(rw http.ResponseWriter, req *http.Request) {
 	s.stateListener(req.URL, StateConnected)
+	// deferred: forwarding can be aborted by a panic (http.ErrAbortHandler when the
+	// response body copy fails midway); the connection is closed then as well.
+	defer s.stateListener(req.URL, StateDisconnected)
 	s.next.ServeHTTP(rw, req)
-	s.stateListener(req.URL, StateDisconnected)
 }
